@@ -118,6 +118,8 @@ def body(ctx, job):
                 refarr[y, x] = ctx.integer('ref_%d_%d' % (y, x), 1, len(sel) + 1)
             else:
                 refarr[y, x] = 1 + (y + x) % len(sel)
+        if job.get('layout') in ('F', 'mixed'):
+            refarr = _forder(refarr)          # the (non-constant) reference layer in Fortran order as well
         raw[ref_name] = refarr
         ds[ref_name] = symxr.DataArray(refarr, dims=('y', 'x'), name=ref_name)
     else:
